@@ -48,7 +48,7 @@ def scenario_of(case):
     scn = draw_smc_scenario(
         case["scenario_seed"], xps=("numpy", "torch", "jax"), dtypes=(None, None, "float64", "float32"),
         particles=(10, 40) if quick else (10, 120), kernel_steps=(1, 2), checkpoint_modes=("none",),
-        rng_routes=("top", "sample"),
+        rng_routes=("top", "sample"), offset_prob=0.15,
     )
     if scn["rng_route"] == "sample":
         scn["api"] = "sampler"
